@@ -16,7 +16,8 @@
       no byte-length / character-count mix (R-UNITS);
   K3  membership equality is not spelling-sensitive (A1): `in` itself never uses
       serde_json's Value/Number equality or slice::contains on values; the
-      membership function compares Number×Number numerically, recurses
+      membership function compares Number×Number exactly (integer pairs as
+      integers through as_i64 / as_u64, f64 only otherwise), recurses
       structurally into Array×Array (same length, element-wise) and
       Object×Object (same length, key-wise via Map::get — key order irrelevant),
       and uses plain equality only where no number can hide (different kinds or
@@ -214,8 +215,11 @@ def run(ctx):
             m = pairs.pair_matrix(roles, mf, str_to_number_key=s2n.key)
             for (a, b), o in sorted(m.items()):
                 if a == b == "Number":
-                    good = o.kind in ("INT-EQ", "MIXED-INT/FLOAT", "FEQ") or o.kind.startswith("OTHER(") and "as_f64" in o.kind
-                    want = "numeric comparison"
+                    # exact: integers are compared as integers (i64, then u64), f64 only for what is left —
+                    # through f64 alone distinct integers beyond 2^53 would be the same element
+                    acc = set(x.rsplit("::", 1)[1] for x in o.detail.get("int_accessors", []))
+                    good = o.kind in ("INT-EQ", "MIXED-INT/FLOAT") and {"as_i64", "as_u64"} <= acc and o.detail.get("ops") == ["Eq"]
+                    want = "exact numeric comparison (as_i64 and as_u64 pairs compared as integers, f64 only otherwise)"
                 elif a == b and a in ("Array", "Object"):
                     good = o.kind.startswith("REC")
                     want = "structural recursion"
